@@ -1113,8 +1113,21 @@ class Server:
         return matching_services
 
     def on_connection(self, channel):
+        # Each client has its own channel and its own continuation state. The
+        # request handlers are synchronous, so the state of the client whose PDU is
+        # being handled can be swapped in and out around each PDU.
+        continuation_state: dict = {'response': None}
+
+        def on_channel_pdu(pdu):
+            self.channel = channel
+            self.current_response = continuation_state['response']
+            try:
+                self.on_pdu(pdu)
+            finally:
+                continuation_state['response'] = self.current_response
+
         self.channel = channel
-        self.channel.sink = self.on_pdu
+        channel.sink = on_channel_pdu
 
     def on_pdu(self, pdu):
         try:
